@@ -1137,6 +1137,59 @@ pub fn run_free(trace: &Trace) -> Vec<String> {
     problems
 }
 
+/// Engine `miri`, single-threaded flavour: executes a seq history on the real cache with
+/// only the end-of-run checks (no per-step oracles: they would make the interpreter crawl).
+/// What Miri adds here is the aliasing / provenance / uninitialised-memory check of the
+/// intrusive deques and tagged pointers along every history.
+pub fn run_free_seq(trace: &Trace) -> Vec<String> {
+    let cfg = &trace.config;
+    let reg = Registry::new();
+    let clock = VerifClock::new();
+    let base = clock.now();
+    let mut problems = Vec::new();
+    let mut sut = crate::sut::Sut::build(cfg, &reg, &clock);
+    for rec in &trace.threads[0] {
+        let r = catch_unwind(AssertUnwindSafe(|| match &rec.op {
+            Op::Insert { k, vid, w } => sut.insert(*k, *vid, *w, &reg),
+            Op::Get { k } => {
+                let _ = sut.get(*k);
+            }
+            Op::Contains { k } => {
+                let _ = sut.contains(*k);
+            }
+            Op::Iter => {
+                let _ = sut.iter();
+            }
+            Op::Invalidate { k } => sut.invalidate(*k),
+            Op::InvalidateAll => sut.invalidate_all(),
+            Op::InvalidateIf { p } => sut.invalidate_if(*p),
+            Op::Sync => sut.sync(),
+            Op::Advance { ns } => clock.advance(Duration::from_nanos(*ns)),
+            _ => {}
+        }));
+        if let Err(p) = r {
+            problems.push(format!("{} panicked: {}", rec.op.name(), payload_str(&p)));
+            break;
+        }
+    }
+    if problems.is_empty() {
+        sut.sync();
+        sut.sync();
+        let snap = sut.snapshot(base, cfg.weigher);
+        for e in &snap.errors {
+            problems.push(format!("walker: {}", e));
+        }
+    }
+    drop(sut);
+    if !reg.double_drops().is_empty() {
+        problems.push("objects dropped more than once".into());
+    }
+    if problems.is_empty() && !reg.leaked().is_empty() {
+        problems.push(format!("{} objects never dropped", reg.leaked().len()));
+    }
+    problems
+}
+
 // ------------------------------------------------------------------------------------------
 // generation
 // ------------------------------------------------------------------------------------------
